@@ -160,7 +160,8 @@ def _cg(
                 info = 0
                 break
             else:
-                pos = previous_gamma / (-curv) * (-j)
+                # steepest descent step along the negative curvature direction
+                pos = pos - previous_gamma / (-curv) * d
                 info = 0
                 break
         alpha = previous_gamma / curv
@@ -281,7 +282,8 @@ def _static_cg(
         pos = pos - alpha * d
         pos = where(
             (curv < 0.0) & (not _raise_nonposdef) & (i <= 1),
-            previous_energy / (-curv) * (-j),
+            # steepest descent step along the negative curvature direction
+            pos - previous_gamma / (-curv) * d,
             pos,
         )
         r = cond(
